@@ -333,6 +333,32 @@ pub fn run(rng: &mut Rng, n: usize, rep: &mut Report) {
                 }
             }
         }
+        // ------------------------------------------------------------ a bank killed by bankruptcy stays dead - permanently, whatever
+        // the admin configures afterwards, on frozen and unfrozen banks alike (the two branches of lending_pool_configure_bank)
+        for frozen in [false, true] {
+            for want in [BankOperationalState::Operational, BankOperationalState::ReduceOnly, BankOperationalState::Paused] {
+                let mut s = clone_scen(&base);
+                let h0 = s.banks[0];
+                let mut b0 = s.w.bank(&h0.bank);
+                b0.config.operational_state = BankOperationalState::KilledByBankruptcy;
+                if frozen { b0.flags |= marginfi_type_crate::constants::FREEZE_SETTINGS; } else { b0.flags &= !marginfi_type_crate::constants::FREEZE_SETTINGS; }
+                s.w.set_bank(&h0.bank, &b0);
+                let r = s.w.exec(&ix::configure_bank(&h0, s.admin, marginfi_type_crate::types::BankConfigOpt { operational_state: Some(want), deposit_limit: Some(u64::MAX), ..Default::default() }));
+                cells += 1;
+                rep.bump("cases");
+                rep.bump(if r.is_ok() { "killed_configure_accepted" } else { "killed_configure_refused" });
+                let after = s.w.bank(&h0.bank).config.operational_state;
+                if after != BankOperationalState::KilledByBankruptcy {
+                    rep.fail(format!("killed-bank-revived: lending_pool_configure_bank (settings frozen: {}) moved a bank KILLED BY BANKRUPTCY to state {} ({})", frozen, after as u8, if r.is_ok() { "instruction accepted" } else { "instruction refused" }));
+                }
+                let mut scratch = Report::default();
+                for (name, act) in [("deposit", Act::Deposit { u: 2, b: 0, amt: 1_000, upto: false }), ("withdraw", Act::Withdraw { u: 2, b: 0, amt: 1, all: false })] {
+                    if matches!(s.step(&act, &mut scratch), Some(Ok(()))) {
+                        rep.fail(format!("killed-bank-accepts: {} succeeded on a bank killed by bankruptcy after an admin re-configuration (settings frozen: {}, requested state {})", name, frozen, want as u8));
+                    }
+                }
+            }
+        }
         rep.sample(format!("matrix on world with {} banks, {} users", base.banks.len(), base.users.len()));
     }
     let _ = ExecErr::Panic;
